@@ -8,6 +8,9 @@ package main
 // assumed, whatever they are bound to.
 
 import (
+	"bytes"
+	"go/printer"
+	"go/token"
 	"encoding/json"
 	"fmt"
 	"go/ast"
@@ -88,6 +91,83 @@ func (ex *Exec) reboundLocal(p *Path, name string) (Value, bool) {
 	return p.vars[best], true
 }
 
+// loopSignature: what a loop ranges over / tests, as source text (used to recognise loops that were merely reordered).
+func loopSignature(fset *token.FileSet, n ast.Node) string {
+	var e ast.Node
+	switch l := n.(type) {
+	case *ast.RangeStmt:
+		e = l.X
+	case *ast.ForStmt:
+		if l.Cond == nil {
+			return "for"
+		}
+		e = l.Cond
+	}
+	var b bytes.Buffer
+	printer.Fprint(&b, fset, e)
+	return b.String()
+}
+
+var loopsOnce sync.Once
+var loopsSnapshot map[string][]string
+
+func loadLoopsSnapshot() map[string][]string {
+	loopsOnce.Do(func() {
+		data, err := os.ReadFile(filepath.Join(verifDir(), "spec", "loops.json"))
+		if err != nil {
+			return
+		}
+		json.Unmarshal(data, &loopsSnapshot)
+	})
+	return loopsSnapshot
+}
+
+// remapLoopOrdinals: if the unit's loops are exactly the recorded ones in another order (every signature unique), each
+// loop keeps the ordinal it had when the contract was written, so `loop N invariant` and `_iN` still mean the same loop.
+func (ex *Exec) remapLoopOrdinals(body ast.Node) {
+	snap := loadLoopsSnapshot()
+	want := snap[ex.funcKey]
+	if len(want) == 0 || len(want) != len(ex.loopOrdinals) {
+		return
+	}
+	cur := make([]string, len(want))
+	nodes := make([]ast.Node, len(want))
+	for n, ord := range ex.loopOrdinals {
+		if ord < 1 || ord > len(want) {
+			return
+		}
+		cur[ord-1] = loopSignature(ex.w.Fset, n)
+		nodes[ord-1] = n
+	}
+	same := true
+	for i := range want {
+		if want[i] != cur[i] {
+			same = false
+		}
+	}
+	if same {
+		return
+	}
+	pos := map[string]int{}
+	for i, s := range want {
+		if _, dup := pos[s]; dup {
+			return
+		}
+		pos[s] = i
+	}
+	seen := map[string]bool{}
+	for _, s := range cur {
+		if _, ok := pos[s]; !ok || seen[s] {
+			return
+		}
+		seen[s] = true
+	}
+	for i, s := range cur {
+		ex.loopOrdinals[nodes[i]] = pos[s] + 1
+	}
+	ex.note("the loops of %s were reordered: invariants follow the loops they were written for (spec/loops.json)", ex.funcKey)
+}
+
 func init() {
 	debugCmds["snapshot-locals"] = func(args []string) int {
 		w := loadAll()
@@ -96,6 +176,7 @@ func init() {
 			return 1
 		}
 		out := map[string]map[string][]localRec{}
+		loopsOut := map[string][]string{}
 		var keys []string
 		for k := range w.Contracts {
 			keys = append(keys, k)
@@ -111,6 +192,17 @@ func init() {
 			}
 			if fi == nil || fi.Decl.Body == nil {
 				continue
+			}
+			if len(c.Loops) > 0 {
+				var sigs []string
+				ast.Inspect(fi.Decl.Body, func(n ast.Node) bool {
+					switch n.(type) {
+					case *ast.RangeStmt, *ast.ForStmt:
+						sigs = append(sigs, loopSignature(w.Fset, n))
+					}
+					return true
+				})
+				loopsOut[c.Key] = sigs
 			}
 			_, list := localOrdinals(fi.Pkg.TypesInfo, fi.Decl.Body)
 			if len(list) == 0 {
@@ -131,7 +223,9 @@ func init() {
 			fmt.Println(err)
 			return 1
 		}
-		fmt.Println("wrote", p, "units:", len(out))
+		ldata, _ := json.MarshalIndent(loopsOut, "", " ")
+		os.WriteFile(filepath.Join(verifDir(), "spec", "loops.json"), ldata, 0o644)
+		fmt.Println("wrote", p, "units:", len(out), "loop signatures:", len(loopsOut))
 		return 0
 	}
 }
